@@ -86,7 +86,7 @@ def _generic_smap(fun, in_axes, out_axes, unroll, *x, _scan=lax.scan, **k):
     out = []
     for i, el in zip(out_axes, y):
         if i is None:
-            out.append(unmapped.pop(0))
+            out.append(el[0])
         elif isinstance(i, int):
             out.append(_moveaxis(el, 0, i))
         else:
